@@ -340,7 +340,7 @@ def run_check(pid, tier, seed, only=None, jobs=None):
             if pending:
                 time.sleep(0.05)
     results.sort(key=lambda r: r["name"])
-    return finish(pid, prop, tier, seed, results, time.time() - t0)
+    return finish(pid, prop, tier, seed, results, time.time() - t0, partial=bool(only))
 
 
 def load_known():
@@ -397,7 +397,7 @@ def merge_shards(results):
     return [by[b] for b in order]
 
 
-def finish(pid, prop, tier, seed, results, wall):
+def finish(pid, prop, tier, seed, results, wall, partial=False):
     results = merge_shards(results)
     problems = []        # inconclusive reasons
     violations = []
@@ -522,7 +522,8 @@ def finish(pid, prop, tier, seed, results, wall):
               assumptions=list(getattr(prop, "ASSUMPTIONS", [])) + COMMON_ASSUMPTIONS,
               wall_s=round(wall, 2), violations=len(violations))
     os.makedirs(EVID, exist_ok=True)
-    with open(os.path.join(EVID, pid + ".json"), "w") as f:
+    # a run restricted with --only is a development aid: it must not replace the evidence
+    with open(os.path.join(EVID, pid + (".partial.json" if partial else ".json")), "w") as f:
         json.dump(ev, f, indent=1)
     # ---- verdict
     for kid, (kf, rep) in sorted(known_hits.items()):
